@@ -357,3 +357,116 @@ pub async fn run_duplicate_begin() {
     peer.send(0, &peer::close(None)).await;
     let _ = peer.drain_for(1000).await;
 }
+
+// ---------------------------------------------------------------------------------------
+// "A handle or channel is reused only after the previous holder has ended" - and then it may be: for
+// the peer its channel is free the moment it has sent its end. A scripted peer ends a session and
+// begins the next one on the same channel in the same write, several times over, with a link and a
+// message on each: every begin must be answered, every message must reach the link of that round's
+// session, and the connection must stay up.
+
+pub async fn run_end_then_begin_on_the_same_channel() {
+    use crate::peer::{self, AttachArgs, PeerSession, TransferArgs};
+    use crate::wire;
+    use fe2o3_amqp::acceptor::SessionAcceptor;
+    let lcfg = EndpointCfg::default_cfg();
+    let (nab, nba, nd) = world::draw_net(true);
+    let ch = pick(&[0u16, 0, 5, 254]);
+    let rounds = 2 + choice(4) as usize;
+    sim::set_config(format!("variant=end-then-begin-on-the-same-channel channel={} rounds={} {}", ch, rounds, nd));
+    sim::mark_nontrivial();
+    sim::set_panic_is_violation(true);
+    let models = Models { sess: true, link: true, ..Models::none() };
+    let pvl = match peer::peer_vs_listener(&lcfg, peer::open("peer", Some(65536), Some(255), None), nab, nba, models).await {
+        Some(x) => x,
+        None => return,
+    };
+    let peer::ListenerVsPeer { mut listener, mut peer, .. } = pvl;
+    let log: Log = Rc::new(RefCell::new(Vec::new()));
+    let log2 = log.clone();
+    sim::spawn(
+        "listener-sessions",
+        sim::in_group(2, async move {
+            let acc = SessionAcceptor::new();
+            let mut si = 0usize;
+            while let Ok(sess) = acc.accept(&mut listener).await {
+                listener_session(si, sess, log2.clone());
+                si += 1;
+            }
+            let _ = listener.on_close().await;
+        }),
+    );
+    let mut next_out = 0u32;
+    for round in 0..rounds {
+        let mut bytes = Vec::new();
+        if round > 0 {
+            // the end of the previous session and the begin of the next in one write
+            bytes.extend_from_slice(&peer::perf_frame(ch, &peer::end(None), &[]));
+            sim::fault("end-and-begin-pipelined-on-one-channel");
+        }
+        bytes.extend_from_slice(&peer::perf_frame(ch, &peer::begin(None, next_out, 5000, 5000), &[]));
+        peer.send_raw(&bytes).await;
+        let mut ps = PeerSession::new(ch, next_out, 5000, 5000);
+        // the listener answers the end of the previous round (if any) and the begin of this one
+        let mut begun = None;
+        let deadline = tokio::time::Instant::now() + std::time::Duration::from_secs(60);
+        while begun.is_none() {
+            if tokio::time::Instant::now() >= deadline || peer.eof {
+                break;
+            }
+            for f in peer.drain_for(20).await {
+                match f.code {
+                    wire::BEGIN => begun = Some(f),
+                    wire::CLOSE => {
+                        sim::violation(
+                            "reuse-of-an-ended-channel-refused",
+                            format!("round {}: the peer ended its session on channel {} and began the next one on the same channel; the listener closed the connection: {}", round, ch, wire::describe_frame(&f)),
+                        );
+                        return;
+                    }
+                    _ => {}
+                }
+            }
+        }
+        let b = match begun {
+            Some(b) => b,
+            None => {
+                sim::violation("begin-not-answered", format!("round {}: the begin on channel {} (after the end of the previous session there) was not answered (eof={})", round, ch, peer.eof));
+                return;
+            }
+        };
+        ps.on_remote_begin(b.perf.as_ref().unwrap(), b.channel);
+        let name = format!("round-{}", round);
+        peer.send(ch, &peer::attach(&AttachArgs::sender(&name, 0))).await;
+        if peer.expect(wire::ATTACH).await.is_none() {
+            sim::violation("attach-failed", format!("round {}: the attach on the new session was not answered", round));
+            return;
+        }
+        // (the link's credit first)
+        if peer.expect(wire::FLOW).await.is_none() {
+            sim::violation("attach-failed", format!("round {}: no credit was granted on the new session's link", round));
+            return;
+        }
+        let uid = 500 + round as u64;
+        let t = TransferArgs { handle: 0, delivery_id: Some(next_out), delivery_tag: Some(vec![round as u8]), message_format: Some(0), settled: Some(true), ..Default::default() };
+        peer.send_with_payload(ch, &peer::transfer(&t), &msgs::encode(&msgs::gen_message(uid, 60, 1))).await;
+        next_out = next_out.wrapping_add(1);
+        let mut waited = 0;
+        while waited < 120_000 && !peer.eof && !log.borrow().iter().any(|g| g.2 == uid) {
+            let _ = peer.drain_for(25).await;
+            waited += 25;
+        }
+        let got = log.borrow();
+        match got.iter().find(|g| g.2 == uid) {
+            Some(g) if g.0 == round && g.1 == name => {}
+            other => {
+                sim::violation("misrouted-message", format!("round {}: the message for link {} of the session begun in this round arrived as {:?} (all: {:?})", round, name, other, *got));
+                return;
+            }
+        }
+    }
+    sim::probe("channel-reused-right-after-the-peers-end");
+    peer.send(ch, &peer::end(None)).await;
+    peer.send(0, &peer::close(None)).await;
+    let _ = peer.drain_for(1000).await;
+}
